@@ -132,9 +132,12 @@ class FakeWriter:
         # within ONE loop iteration never yields to the event loop (the whole pool is frozen)
         w.writes_this_iteration += 1
         if w.writes_this_iteration > 20000:
-            raise SimAbort(Violation("C14", "handler_never_yields",
-                                     f"the handler of connection {c.cid} wrote {w.writes_this_iteration} replies without "
-                                     f"ever yielding to the event loop: the pool is frozen", {"engine": "pool"}))
+            # record the violation on the world (asyncio stores a BaseException raised inside a task in the
+            # task instead of propagating it), then end the spinning handler
+            w.flag("C14", "handler_never_yields",
+                   f"the handler of connection {c.cid} wrote {w.writes_this_iteration} replies without ever yielding "
+                   f"to the event loop: the pool is frozen")
+            raise SimAbort(Violation("C14", "handler_never_yields", "spinning handler stopped", {"engine": "pool"}))
         if c.client_gone:
             c.dropped_writes += 1
             return
